@@ -29,6 +29,8 @@ Inductive stmt :=
 | SReturn
 | SCall (callee : string)
 | STry (what : string)
+| SMutate (target : string)          (* a store into the argument: <x>.data[...] = / <x>.basis_id = / del / insert *)
+| SContinue
 | SIf (test : gexp) (body orelse : list stmt)
 | SFor (header : string) (body : list stmt).
 
@@ -79,6 +81,10 @@ Fixpoint parse_stmts (fuel : nat) (ts : list tok) : option (list stmt * list tok
           match parse_stmts f r with Some (l, r') => Some (SCall txt :: l, r') | None => None end
         else if tag =? "try" then
           match parse_stmts f r with Some (l, r') => Some (STry txt :: l, r') | None => None end
+        else if tag =? "mutate" then
+          match parse_stmts f r with Some (l, r') => Some (SMutate txt :: l, r') | None => None end
+        else if tag =? "continue" then
+          match parse_stmts f r with Some (l, r') => Some (SContinue :: l, r') | None => None end
         else if tag =? "if" then
           match parse_gexp f r with
           | Some (t, (tg1, _) :: r1) =>
@@ -110,11 +116,13 @@ Definition decode (ts : list tok) : option (list stmt) :=
   match parse_stmts (S (length ts)) ts with Some (l, []) => Some l | _ => None end.
 
 (* ---------- execution ---------- *)
-Inductive flow := FNext | FReturned | FRefused | FCrashed.
+Inductive flow := FNext | FReturned | FRefused | FCrashed | FContinue.
 Definition fseq (a : flow) (b : flow) : flow := match a with FNext => b | x => x end.
+(* at the end of a loop body `continue` just ends the iteration *)
+Definition uncont (a : flow) : flow := match a with FContinue => FNext | x => x end.
 Definition flow_of (o : outcome) : flow := match o with Ok _ => FNext | Refused => FRefused | Crashed => FCrashed end.
 Definition outcome_of (f : flow) : outcome :=
-  match f with FNext | FReturned => Proceeds | FRefused => Refused | FCrashed => Crashed end.
+  match f with FNext | FReturned | FContinue => Proceeds | FRefused => Refused | FCrashed => Crashed end.
 
 Section Exec.
 Variables I E : Type.
@@ -155,6 +163,8 @@ Fixpoint exec_stmt (s : stmt) (st : list E) {struct s} : flow :=
   | SReturn => FReturned
   | SCall f => match call f i st with Some o => flow_of o | None => FCrashed end
   | STry t => match atom t i st with Some true => FRefused | Some false => FNext | None => FCrashed end
+  | SMutate _ => FNext                 (* the decision does not depend on stores; see `dominated` below *)
+  | SContinue => FContinue
   | SIf t b o =>
       match eval t st with
       | None => FCrashed
@@ -170,8 +180,8 @@ Fixpoint exec_stmt (s : stmt) (st : list E) {struct s} : flow :=
           (fix loop (l : list E) : flow :=
              match l with
              | [] => FNext
-             | e :: r => fseq ((fix go (l' : list stmt) : flow :=
-                                  match l' with [] => FNext | x :: r' => fseq (exec_stmt x (e :: st)) (go r') end) b)
+             | e :: r => fseq (uncont ((fix go (l' : list stmt) : flow :=
+                                  match l' with [] => FNext | x :: r' => fseq (exec_stmt x (e :: st)) (go r') end) b))
                               (loop r)
              end) es
       end
@@ -180,6 +190,39 @@ Fixpoint exec_list (l : list stmt) (st : list E) : flow :=
   match l with [] => FNext | x :: r => fseq (exec_stmt x st) (exec_list r st) end.
 Definition run (l : list stmt) : outcome := outcome_of (exec_list l []).
 End Exec.
+
+(* ---------- domination of the stores by the raise sites (purely syntactic, on the regenerated tree) ----------
+   dominated l = true  means: on NO path through l is a statement that can refuse (raise / try-raise / a call of a
+   validating function) reachable after a store into the argument; in particular a loop body never contains both.
+   `continue` is ignored (it only removes paths).  This is the "validate everything, then mutate" shape. *)
+Fixpoint can_raise (s : stmt) : bool :=
+  match s with
+  | SRaise | STry _ | SCall _ => true
+  | SIf _ b o => existsb can_raise b || existsb can_raise o
+  | SFor _ b => existsb can_raise b
+  | _ => false
+  end.
+Fixpoint can_mutate (s : stmt) : bool :=
+  match s with
+  | SMutate _ => true
+  | SIf _ b o => existsb can_mutate b || existsb can_mutate o
+  | SFor _ b => existsb can_mutate b
+  | _ => false
+  end.
+(* dom_stmt s seen = Some seen' : fine, and a store may have happened afterwards iff seen' *)
+Fixpoint dom_stmt (s : stmt) (seen : bool) {struct s} : option bool :=
+  let dom_list := fix dl (l : list stmt) (sn : bool) : option bool :=
+                    match l with [] => Some sn | x :: r => match dom_stmt x sn with Some s' => dl r s' | None => None end end in
+  match s with
+  | SRaise | STry _ | SCall _ => if seen then None else Some false
+  | SMutate _ => Some true
+  | SReturn | SContinue => Some seen
+  | SIf _ b o => match dom_list b seen, dom_list o seen with Some x, Some y => Some (x || y) | _, _ => None end
+  | SFor _ b => if existsb can_mutate b && existsb can_raise b then None else dom_list b seen
+  end.
+Fixpoint dom_list (l : list stmt) (seen : bool) : option bool :=
+  match l with [] => Some seen | x :: r => match dom_stmt x seen with Some s' => dom_list r s' | None => None end end.
+Definition dominated (l : list stmt) : bool := match dom_list l false with Some _ => true | None => false end.
 
 (* ---------- the regenerated skeletons ---------- *)
 From CKT Require Import Extracted.Facts.
@@ -269,3 +312,76 @@ Definition sim_coll (c : string) (i : list sim_inst) (st : list sim_inst) : opti
 Definition sim_call (f : string) (i : list sim_inst) (st : list sim_inst) : option outcome := None.
 Definition run_simulate (sk : list stmt) (i : list sim_inst) : outcome :=
   run (list sim_inst) sim_inst sim_atom sim_coll sim_call i sk.
+
+(* ====================================================================================================
+   The trees the regenerated skeletons are expected to decode to (Properties/C18.v: the c18_skeleton_ Examples)
+   ==================================================================================================== *)
+Definition sk_simulate : list stmt :=
+  [SFor "inst in qc.data"
+     [SIf (GAtom "inst.operation.condition_bits") [SRaise] [];
+      SIf (GAtom "opname in ('measure', 'reset')") []
+        [SIf (GAtom "len(inst.clbits) != 0") [SRaise] []]]; SReturn].
+
+Definition sk_reconstruct : list stmt :=
+  [SIf (GAtom "isinstance(observables, PauliList)")
+     [SIf (GNot (GAtom "isinstance(results, (SamplerResult, PrimitiveResult))")) [SRaise] [];
+      SIf (GAny "obs" "observables" (GAtom "obs.phase != 0")) [SRaise] [];
+      SCall "decompose_observables"]
+     [SIf (GAtom "isinstance(observables, Mapping)")
+        [SIf (GNot (GAtom "isinstance(results, Mapping)")) [SRaise] [];
+         SIf (GAtom "observables.keys() != results.keys()") [SRaise] [];
+         SFor "(label, subobservable) in observables.items()"
+           [SIf (GAny "obs" "subobservable" (GAtom "obs.phase != 0")) [SRaise] []]]
+        [SRaise]];
+   SFor "(label, so) in subsystem_observables.items()"
+     [SIf (GAtom "len(current_result) != len(coefficients) * len(so.groups)") [SRaise] []];
+   SReturn].
+
+Local Notation rc_exec_list := (ValidationSkel.exec_list rec_in rc_elem rc_atom rc_coll rc_call).
+
+Definition sk_partition_problem : list stmt :=
+  [SIf (GAnd (GAtom "partition_labels is not None") (GAtom "len(partition_labels) != circuit.num_qubits")) [SRaise] [];
+   SIf (GAnd (GAtom "observables is not None") (GAny "obs" "observables" (GAtom "len(obs) != circuit.num_qubits")))
+     [SRaise] [];
+   SIf (GAnd (GAtom "observables is not None") (GAny "obs" "observables" (GAtom "obs.phase != 0"))) [SRaise] [];
+   SIf (GOr (GAtom "len(circuit.cregs) != 0") (GAtom "circuit.num_clbits != 0")) [SRaise] [];
+   SIf (GAtom "partition_labels is None") [SCall "_partition_labels_from_circuit"] [];
+   SCall "partition_circuit_qubits"; SCall "separate_circuit";
+   SIf (GAtom "observables")
+     [SCall "decompose_observables";
+      SIf (GAnd (GAtom "idle_observables is not None")
+             (GAny "obs" "idle_observables" (GOr (GAtom "obs.x.any()") (GAtom "obs.z.any()")))) [SRaise] []] [];
+   SReturn].
+
+(* the abstraction is well formed: one support entry per observable *)
+Definition pp_wf (i : pp_in) : Prop :=
+  match pp_obs i with Some o => length (pp_support i) = length o | None => True end.
+
+Definition sk_partition_circuit_qubits : list stmt :=
+  [SIf (GAtom "len(partition_labels) != len(circuit.qubits)") [SRaise] [];
+   SFor "(i, instruction) in enumerate(circuit.data)"
+     [SIf (GAtom "instruction.operation.name == 'barrier'") [SContinue] [];
+      SIf (GOr (GAtom "len(qubit_indices) <= 1")
+             (GOr (GAtom "len(partitions_spanned) == 1") (GAtom "isinstance(instruction.operation, Barrier)")))
+        [SContinue] [];
+      SIf (GAtom "len(qubit_indices) > 2") [SRaise] [];
+      SIf (GAtom "isinstance(instruction.operation, TwoQubitQPDGate)") [SContinue] [];
+      SCall "from_instruction"];
+   SFor "(i, new_instruction) in replacements" [SMutate "circuit.data[i]"];
+   SReturn].
+Definition sk_cut_gates : list stmt :=
+  [SIf (GOr (GAtom "len(circuit.cregs) != 0") (GAtom "circuit.num_clbits != 0")) [SRaise] [];
+   SFor "gate_id in gate_ids" [SCall "from_instruction"];
+   SFor "(gate_id, new_instruction) in replacements" [SMutate "circuit.data[gate_id]"];
+   SReturn].
+Definition sk_decompose : list stmt :=
+  [SCall "_validate_qpd_instructions";
+   SIf (GAtom "map_ids is not None")
+     [SIf (GAtom "len(instruction_ids) != len(map_ids)") [SRaise] [];
+      SFor "(i, decomp_gate_ids) in enumerate(instruction_ids)"
+        [SFor "gate_id in decomp_gate_ids"
+           [SIf (GOr (GAtom "map_ids[i] is None") (GAtom "map_ids[i] not in range(num_maps)")) [SRaise] []]];
+      SFor "(i, decomp_gate_ids) in enumerate(instruction_ids)"
+        [SFor "gate_id in decomp_gate_ids" [SMutate "circuit.data[gate_id].operation.basis_id"]]] [];
+   SCall "_decompose_qpd_instructions";
+   SReturn].
